@@ -112,12 +112,19 @@ class MeshLine1(MeshSimplex, Mesh):
         maxt = self.t[np.argmax(self.p[0, self.t], 0),
                       np.arange(self.t.shape[1])]
 
+        # sentinel for points right of the last vertex: matches no element
+        ixs = np.append(ix, -1)
+
         def finder(x):
-            xin = x.copy()  # bring endpoint inside for np.digitize
-            xin[x == self.p[0, ix[-1]]] = self.p[0, ix[-2:]].mean()
-            elems = np.nonzero(ix[np.digitize(xin, self.p[0, ix])][:, None]
-                               == maxt)[1].astype(np.int32)
-            if len(elems) < len(x):
+            elems = np.full(len(x), -1, dtype=np.int32)
+            # first the element (a, b] containing x, then overwrite with the
+            # element [a, b) if there is one; the former is needed for the
+            # right end points of the mesh and of its connected components
+            for right in (True, False):
+                vert = ixs[np.digitize(x, self.p[0, ix], right=right)]
+                pts, cells = np.nonzero(vert[:, None] == maxt)
+                elems[pts] = cells
+            if (elems == -1).any():
                 raise ValueError("Point is outside of the mesh.")
             return elems
 
